@@ -1,6 +1,1116 @@
-use crate::worker::Ctx;
+//! The `hist` engine: every history of edits and invocations up to a depth,
+//! on a real directory tree with the real loader, db and scheduler (commands
+//! scripted).  After every invocation the real tree is compared with the
+//! reference model: what ran must have been dirty (C03), what was left must be
+//! clean and carry the content a from-scratch build would produce (C02);
+//! templates exercise discovered dependencies (C09), manifest edits (C08) and
+//! manifest regeneration (C17).
+
+use crate::exec::{self, BuildResult, Event, ExecConfig, Snapshot, Term};
+use crate::sim::{take_sim, Generator, Outcome, Sim};
+use crate::worker::{Ctx, Tier};
+use n2::verif::BuildOpts;
+use serde_json::{json, Value};
+use std::collections::{BTreeMap, BTreeSet};
+use vcore::project::{EdgeKind, Project, Step};
+use vcore::refbuild::{canon, Dirty, FileInfo, Model};
 use vcore::report::ShardResult;
 
-pub fn run(_ctx: &mut Ctx) -> ShardResult {
-    unimplemented!("engine hist")
+#[derive(Debug, Clone, PartialEq, Eq)]
+pub enum EditOp {
+    /// New content and mtime for a source or header.
+    Touch(String),
+    /// Delete a generated file (output or intermediate).
+    RemoveOut(String),
+    /// Bump the mtime of a generated file.
+    TouchOut(String),
+    /// Delete a header and stop including it anywhere.
+    RemoveHeader(String),
+    /// Delete a declared source input.
+    RemoveSource(String),
+    /// The command of the step with this first output now reports these.
+    Reports(String, Vec<String>),
+    /// Replace the manifest by variant n.
+    Variant(usize),
+    /// Touch the generator input; the generator will write variant n.
+    GenVariant(usize),
+}
+
+#[derive(Debug, Clone, PartialEq, Eq)]
+pub enum Inv {
+    Build(Vec<String>),
+    /// Default targets at -j2, every completion order (state continues from
+    /// the default order).
+    BuildAllOrders,
+    Fail(String, Option<usize>),
+    /// Kill n2 when it blocks for the (n+1)-th time; running commands leave
+    /// fresh garbage in their outputs if `partial`.
+    Kill(usize, bool),
+    Restat(Vec<String>),
+}
+
+#[derive(Clone)]
+pub struct Template {
+    pub name: &'static str,
+    pub variants: Vec<Project>,
+    pub manifest_name: String,
+    pub headers: Vec<String>,
+    pub reports: BTreeMap<String, Vec<String>>,
+    pub report_options: Vec<(String, Vec<Vec<String>>)>,
+    pub restat_like: Vec<String>,
+    pub targets: Vec<Vec<String>>,
+    pub fail_cmds: Vec<String>,
+    pub generator: bool,
+    pub removable_sources: Vec<String>,
+    /// Report settings that come with a manifest variant (the sources were
+    /// edited together with the manifest).
+    pub variant_reports: BTreeMap<usize, BTreeMap<String, Vec<String>>>,
+}
+
+fn e(f: &str) -> (EdgeKind, String) {
+    (EdgeKind::Explicit, f.to_string())
+}
+fn imp(f: &str) -> (EdgeKind, String) {
+    (EdgeKind::Implicit, f.to_string())
+}
+fn oo(f: &str) -> (EdgeKind, String) {
+    (EdgeKind::OrderOnly, f.to_string())
+}
+
+fn st(out: &str, cmd: &str, ins: Vec<(EdgeKind, String)>) -> Step {
+    Step {
+        outs: vec![out.to_string()],
+        cmdline: cmd.to_string(),
+        ins,
+        ..Default::default()
+    }
+}
+
+pub fn templates() -> Vec<Template> {
+    let mut out = Vec::new();
+
+    // 1. chain with a depfile-reported header
+    {
+        let obj = |cmd: &str, msvc: bool| {
+            let mut s = st("obj", cmd, vec![e("src.c"), imp("cfg.h"), oo("stamp.in")]);
+            if msvc {
+                s.msvc = true;
+            } else {
+                s.depfile = Some("obj.d".into());
+            }
+            s
+        };
+        for msvc in [false, true] {
+            let base = Project {
+                steps: vec![obj("CC", msvc), st("bin", "LD", vec![e("obj"), e("lib.in")])],
+                ..Default::default()
+            };
+            let mut v_cmd = base.clone();
+            v_cmd.steps[0].cmdline = "CC -O2".into();
+            let mut v_extra = base.clone();
+            v_extra.steps.insert(0, st("other", "OTHER", vec![e("other.in")]));
+            v_extra.preamble = "# a comment\nunused = 1\n".into();
+            let mut v_reorder = base.clone();
+            v_reorder.steps.reverse();
+            let mut v_newin = base.clone();
+            v_newin.steps[1].ins.push(e("extra.in"));
+            let mut v_default = base.clone();
+            v_default.defaults = vec!["obj".into()];
+            out.push(Template {
+                name: if msvc { "msvc-chain" } else { "depfile-chain" },
+                variants: vec![base, v_cmd, v_extra, v_reorder, v_newin, v_default],
+                manifest_name: "build.ninja".into(),
+                headers: vec!["hdr.h".into(), "hdr2.h".into()],
+                reports: [("obj".to_string(), vec!["hdr.h".to_string()])].into_iter().collect(),
+                report_options: vec![(
+                    "obj".into(),
+                    vec![
+                        vec![],
+                        vec!["hdr.h".into()],
+                        vec!["hdr.h".into(), "hdr2.h".into()],
+                        vec!["hdr2.h".into()],
+                        vec!["./hdr.h".into(), "hdr.h".into(), "x/../hdr.h".into()],
+                        vec!["src.c".into(), "cfg.h".into(), "hdr.h".into()],
+                        vec!["stamp.in".into()],
+                    ],
+                )],
+                restat_like: vec![],
+                targets: vec![vec!["obj".into()], vec!["bin".into()]],
+                fail_cmds: vec!["CC".into(), "LD".into()],
+                generator: false,
+                removable_sources: vec!["lib.in".into()],
+                variant_reports: BTreeMap::new(),
+            });
+        }
+    }
+
+    // 2. diamond
+    {
+        let base = Project {
+            steps: vec![
+                st("a", "A", vec![e("a.in")]),
+                st("b", "B", vec![e("a"), e("b.in")]),
+                st("c", "C", vec![imp("a"), e("c.in")]),
+                st("d", "D", vec![e("b"), e("c")]),
+            ],
+            ..Default::default()
+        };
+        let mut v_edge = base.clone();
+        v_edge.steps[3].ins.retain(|(_, f)| f != "c");
+        let mut v_order = base.clone();
+        v_order.steps[2].ins[0] = oo("a");
+        out.push(Template {
+            name: "diamond",
+            variants: vec![base, v_edge, v_order],
+            manifest_name: "build.ninja".into(),
+            headers: vec![],
+            reports: BTreeMap::new(),
+            report_options: vec![],
+            restat_like: vec![],
+            targets: vec![vec!["b".into()], vec!["d".into()], vec!["c".into()]],
+            fail_cmds: vec!["A".into(), "B".into(), "D".into()],
+            generator: false,
+            removable_sources: vec![],
+            variant_reports: BTreeMap::new(),
+        });
+    }
+
+    // 3. two-output step feeding two consumers; variants move / drop outputs
+    {
+        let p = |outs: &[&str]| Step {
+            outs: outs.iter().map(|s| s.to_string()).collect(),
+            cmdline: format!("P {}", outs.join(" ")),
+            ins: vec![e("p.in")],
+            depfile: Some("p.d".into()),
+            ..Default::default()
+        };
+        let base = Project {
+            steps: vec![p(&["p1", "p2"]), st("x", "X", vec![e("p1")]), st("y", "Y", vec![e("p2")])],
+            ..Default::default()
+        };
+        // p2 now comes from its own step
+        let moved = Project {
+            steps: vec![p(&["p1"]), st("p2", "P2", vec![e("p2.in")]), st("x", "X", vec![e("p1")]), st("y", "Y", vec![e("p2")])],
+            ..Default::default()
+        };
+        // p produces only p1; p2 is a source now
+        let dropped = Project {
+            steps: vec![p(&["p1"]), st("x", "X", vec![e("p1")]), st("y", "Y", vec![e("p2")])],
+            ..Default::default()
+        };
+        // same command text, output order swapped
+        let mut swapped = base.clone();
+        swapped.steps[0].outs.reverse();
+        out.push(Template {
+            name: "two-outputs",
+            variants: vec![base, moved, dropped, swapped],
+            manifest_name: "build.ninja".into(),
+            headers: vec!["ph.h".into(), "gone.h".into()],
+            reports: [("p1".to_string(), vec!["ph.h".to_string(), "gone.h".to_string()])].into_iter().collect(),
+            report_options: vec![("p1".into(), vec![vec![], vec!["ph.h".into()], vec!["ph.h".into(), "gone.h".into()]])],
+            restat_like: vec![],
+            targets: vec![vec!["x".into()], vec!["y".into()]],
+            fail_cmds: vec!["X".into()],
+            generator: false,
+            removable_sources: vec![],
+            variant_reports: BTreeMap::new(),
+        });
+    }
+
+    // 4. order-only stamp and a discovered dependency on the generated header
+    {
+        let mut obj = st("obj", "CC", vec![e("src.c"), oo("gen.h")]);
+        obj.depfile = Some("obj.d".into());
+        let base = Project {
+            steps: vec![st("gen.h", "GEN", vec![e("gen.in")]), obj, st("bin", "LD", vec![e("obj")])],
+            ..Default::default()
+        };
+        // The compile step used to have a second output and stops having it,
+        // together with its dependency on the generated header.
+        let mut two = base.clone();
+        two.steps[1].outs.push("obj.aux".into());
+        let mut shrunk = base.clone();
+        shrunk.steps[1].ins.retain(|(_, f)| f != "gen.h");
+        out.push(Template {
+            name: "generated-header",
+            variants: vec![base, two, shrunk],
+            manifest_name: "build.ninja".into(),
+            headers: vec!["plain.h".into()],
+            reports: [("obj".to_string(), vec!["gen.h".to_string()])].into_iter().collect(),
+            report_options: vec![("obj".into(), vec![vec![], vec!["gen.h".into()], vec!["gen.h".into(), "plain.h".into()]])],
+            restat_like: vec!["gen.h".into()],
+            targets: vec![vec!["obj".into()]],
+            fail_cmds: vec!["GEN".into(), "CC".into()],
+            generator: false,
+            removable_sources: vec![],
+            variant_reports: [
+                (0usize, [("obj".to_string(), vec!["gen.h".to_string()])].into_iter().collect()),
+                (1usize, [("obj".to_string(), vec!["gen.h".to_string()])].into_iter().collect()),
+                (2usize, [("obj".to_string(), vec!["plain.h".to_string()])].into_iter().collect()),
+            ]
+            .into_iter()
+            .collect(),
+        });
+    }
+
+    // 5. response file
+    {
+        let mk = |content: &str, path: &str| {
+            let mut s = st("lib", "AR @rsp", vec![e("o1.in"), e("o2.in")]);
+            s.rspfile = Some((path.to_string(), content.to_string()));
+            Project {
+                steps: vec![s, st("app", "LINK", vec![e("lib")])],
+                ..Default::default()
+            }
+        };
+        out.push(Template {
+            name: "rspfile",
+            variants: vec![mk("o1.in o2.in", "lib.rsp"), mk("o2.in o1.in", "lib.rsp"), mk("o1.in o2.in", "other.rsp")],
+            manifest_name: "build.ninja".into(),
+            headers: vec![],
+            reports: BTreeMap::new(),
+            report_options: vec![],
+            restat_like: vec![],
+            targets: vec![vec!["lib".into()]],
+            fail_cmds: vec!["AR @rsp".into()],
+            generator: false,
+            removable_sources: vec![],
+            variant_reports: BTreeMap::new(),
+        });
+    }
+
+    // 6. restat-like upstream
+    {
+        let base = Project {
+            steps: vec![
+                st("up", "UP", vec![e("up.in")]),
+                st("mid", "MID", vec![e("up"), e("mid.in")]),
+                st("down", "DOWN", vec![e("mid")]),
+            ],
+            ..Default::default()
+        };
+        out.push(Template {
+            name: "restat-upstream",
+            variants: vec![base],
+            manifest_name: "build.ninja".into(),
+            headers: vec![],
+            reports: BTreeMap::new(),
+            report_options: vec![],
+            restat_like: vec!["up".into(), "mid".into()],
+            targets: vec![vec!["mid".into()], vec!["down".into()]],
+            fail_cmds: vec!["MID".into()],
+            generator: false,
+            removable_sources: vec![],
+            variant_reports: BTreeMap::new(),
+        });
+    }
+
+    // 7. generator producing the manifest
+    for manifest_name in ["build.ninja", "gen.ninja"] {
+        let variants: Vec<Project> = (0..8).map(|v| crate::scen::regen_project(manifest_name, 1, v)).collect();
+        out.push(Template {
+            name: if manifest_name == "build.ninja" { "generator" } else { "generator-f" },
+            variants,
+            manifest_name: manifest_name.into(),
+            headers: vec![],
+            reports: BTreeMap::new(),
+            report_options: vec![],
+            restat_like: vec![],
+            targets: vec![vec!["b".into()], vec!["c".into()], vec!["newt".into()]],
+            fail_cmds: vec!["A".into(), "GEN".into()],
+            generator: true,
+            removable_sources: vec![],
+            variant_reports: BTreeMap::new(),
+        });
+    }
+    out
+}
+
+/// Which templates a property's check walks.
+pub fn jobs(prop: &str, tier: Tier) -> Vec<(String, u64)> {
+    let depth = tier.pick(2, 3);
+    let names: Vec<&str> = match prop {
+        "C02" | "C03" => vec!["depfile-chain", "msvc-chain", "diamond", "two-outputs", "generated-header", "rspfile", "restat-upstream", "generator"],
+        "C08" => vec!["depfile-chain", "two-outputs", "rspfile", "diamond"],
+        "C09" => vec!["depfile-chain", "msvc-chain", "generated-header", "two-outputs"],
+        "C17" => vec!["generator", "generator-f"],
+        _ => vec![],
+    };
+    names.into_iter().map(|n| (format!("hist:{}:{}", n, depth), 16)).collect()
+}
+
+// ---------------------------------------------------------------------------
+
+#[derive(Clone)]
+pub struct Node {
+    pub snap: Snapshot,
+    pub sim: Sim,
+    pub variant: usize,
+}
+
+fn opts(t: &Template, targets: &[String], j: usize, k: Option<usize>, adopt: bool) -> BuildOpts {
+    BuildOpts {
+        build_filename: if t.manifest_name == "build.ninja" { None } else { Some(t.manifest_name.clone()) },
+        targets: targets.to_vec(),
+        parallelism: j,
+        failures_left: k,
+        explain: false,
+        adopt,
+    }
+}
+
+pub fn initial(t: &Template) -> Node {
+    exec::clear_dir();
+    let mut sim = Sim::new(t.variants[0].clone());
+    sim.create_sources();
+    for h in &t.headers {
+        sim.touch(h);
+    }
+    sim.write_manifest(&t.manifest_name);
+    sim.reports = t.reports.clone();
+    sim.restat_like = t.restat_like.clone();
+    if t.generator {
+        sim.generators.insert(
+            t.manifest_name.clone(),
+            Generator {
+                manifest_name: t.manifest_name.clone(),
+                next: t.variants[0].clone(),
+            },
+        );
+    }
+    Node {
+        snap: exec::snapshot(),
+        sim,
+        variant: 0,
+    }
+}
+
+pub fn edit_alphabet(t: &Template, node: &Node) -> Vec<EditOp> {
+    let p = node.sim.project();
+    let mut v = Vec::new();
+    for s in p.sources() {
+        if s == "gen.in" && t.generator {
+            continue; // covered by GenVariant
+        }
+        if node.sim.model.exists(&s) {
+            v.push(EditOp::Touch(s));
+        }
+    }
+    for h in &t.headers {
+        if node.sim.model.exists(h) {
+            if !p.sources().contains(h) {
+                v.push(EditOp::Touch(h.clone()));
+            }
+            v.push(EditOp::RemoveHeader(h.clone()));
+        }
+    }
+    for s in &t.removable_sources {
+        if node.sim.model.exists(s) {
+            v.push(EditOp::RemoveSource(s.clone()));
+        }
+    }
+    for st in &p.steps {
+        if st.phony {
+            continue;
+        }
+        for o in st.all_outs() {
+            if *o == t.manifest_name {
+                continue;
+            }
+            if node.sim.model.exists(o) {
+                v.push(EditOp::RemoveOut(o.clone()));
+                v.push(EditOp::TouchOut(o.clone()));
+            }
+        }
+    }
+    for (key, options) in &t.report_options {
+        for o in options {
+            // A compiler cannot report a header that does not exist.
+            if o.iter().any(|h| !node.sim.model.exists(&canon(h))) {
+                continue;
+            }
+            // A generated header is only included by steps that are ordered
+            // after its producer (anything else is an error in the project
+            // that n2 reports as such).
+            let Some(stp) = p.steps.iter().position(|s| s.outs[0] == *key) else {
+                continue;
+            };
+            if o.iter().any(|h| match p.producer(&canon(h)) {
+                Some(q) => !p.ord_pred(stp).contains(&q),
+                None => false,
+            }) {
+                continue;
+            }
+            if node.sim.reports.get(key) != Some(o) {
+                v.push(EditOp::Reports(key.clone(), o.clone()));
+            }
+        }
+    }
+    for i in 0..t.variants.len() {
+        if t.generator {
+            v.push(EditOp::GenVariant(i));
+        } else if i != node.variant {
+            v.push(EditOp::Variant(i));
+        }
+    }
+    v
+}
+
+pub fn apply_edit(t: &Template, node: &mut Node, op: &EditOp) {
+    match op {
+        EditOp::Touch(f) => node.sim.touch(f),
+        EditOp::RemoveOut(f) => node.sim.remove(f),
+        EditOp::TouchOut(f) => node.sim.touch_mtime(f),
+        EditOp::RemoveSource(f) => node.sim.remove(f),
+        EditOp::RemoveHeader(h) => {
+            node.sim.remove(h);
+            for r in node.sim.reports.values_mut() {
+                r.retain(|x| canon(x) != *h);
+            }
+        }
+        EditOp::Reports(k, r) => {
+            node.sim.reports.insert(k.clone(), r.clone());
+            // What a compiler reports changes because the source changed.
+            let src = node
+                .sim
+                .project()
+                .steps
+                .iter()
+                .find(|s| s.outs[0] == *k)
+                .and_then(|s| s.dirtying_ins().first().map(|x| (*x).clone()));
+            if let Some(src) = src {
+                if node.sim.project().producer(&src).is_none() {
+                    node.sim.touch(&src);
+                }
+            }
+        }
+        EditOp::Variant(i) => {
+            node.variant = *i;
+            node.sim.projects = vec![t.variants[*i].clone()];
+            node.sim.create_sources();
+            node.sim.write_manifest(&t.manifest_name);
+            if let Some(r) = t.variant_reports.get(i) {
+                for (k, v) in r {
+                    if node.sim.reports.get(k) != Some(v) {
+                        node.sim.reports.insert(k.clone(), v.clone());
+                        // the source was edited along with the manifest
+                        let src = node.sim.project().steps.iter().find(|s| s.outs[0] == *k).and_then(|s| s.dirtying_ins().first().map(|x| (*x).clone()));
+                        if let Some(src) = src {
+                            if node.sim.project().producer(&src).is_none() {
+                                node.sim.touch(&src);
+                            }
+                        }
+                    }
+                }
+            }
+        }
+        EditOp::GenVariant(i) => {
+            node.variant = *i;
+            node.sim.touch("gen.in");
+            let next = t.variants[*i].clone();
+            // Sources the new manifest refers to exist beforehand.
+            for s in next.sources() {
+                if !node.sim.model.exists(&s) {
+                    node.sim.touch(&s);
+                }
+            }
+            node.sim.generators.insert(
+                t.manifest_name.clone(),
+                Generator {
+                    manifest_name: t.manifest_name.clone(),
+                    next,
+                },
+            );
+        }
+    }
+}
+
+pub fn inv_alphabet(t: &Template, round: usize, full: bool) -> Vec<Inv> {
+    let mut v = vec![Inv::Build(vec![])];
+    if round == 0 {
+        v.push(Inv::BuildAllOrders);
+    }
+    if !full {
+        v.push(Inv::Fail(t.fail_cmds[0].clone(), None));
+        v.push(Inv::Kill(1, true));
+        return v;
+    }
+    for tg in &t.targets {
+        v.push(Inv::Build(tg.clone()));
+    }
+    for f in &t.fail_cmds {
+        v.push(Inv::Fail(f.clone(), None));
+    }
+    v.push(Inv::Fail(t.fail_cmds[0].clone(), Some(1)));
+    v.push(Inv::Kill(1, false));
+    v.push(Inv::Kill(1, true));
+    v.push(Inv::Kill(2, true));
+    v.push(Inv::Restat(vec![]));
+    v
+}
+
+type Findings = Vec<(String, String)>;
+
+/// Tags a from-scratch build of the current project and sources would give.
+pub fn clean_tags(sim: &Sim) -> BTreeMap<String, u64> {
+    let p = sim.project();
+    let mut scratch = Model::default();
+    for s in p.sources() {
+        if let Some(i) = sim.model.files.get(&s) {
+            scratch.files.insert(s, *i);
+        }
+    }
+    // headers and other non-generated files
+    for (f, i) in &sim.model.files {
+        if p.producer(f).is_none() {
+            scratch.files.insert(f.clone(), *i);
+        }
+    }
+    let all: BTreeSet<usize> = (0..p.steps.len()).collect();
+    let mut tags = BTreeMap::new();
+    for stp in p.topo(&all) {
+        let s = &p.steps[stp];
+        if s.phony {
+            continue;
+        }
+        let key = s.outs[0].clone();
+        let reads: Vec<String> = sim
+            .reports
+            .get(&key)
+            .map(|r| r.iter().map(|x| canon(x)).filter(|f| scratch.exists(f)).collect())
+            .unwrap_or_default();
+        for o in s.all_outs() {
+            if let Some(g) = sim.generators.get(&key) {
+                if *o == g.manifest_name {
+                    continue;
+                }
+            }
+            let tag = scratch.output_tag(s, o, &reads);
+            scratch.files.insert(o.clone(), FileInfo { mtime: 0, tag });
+            tags.insert(o.clone(), tag);
+        }
+    }
+    tags
+}
+
+pub struct Run {
+    pub result: BuildResult,
+    pub sim: Sim,
+    pub trace: Vec<Event>,
+    pub thread_panics: usize,
+}
+
+pub fn run_once(t: &Template, sim: Sim, targets: &[String], j: usize, k: Option<usize>, adopt: bool, prefix: Vec<usize>, kill: Option<usize>) -> (Run, Vec<crate::exec::Point>) {
+    run_once_fault(t, sim, targets, j, k, adopt, prefix, kill, None)
+}
+
+pub fn run_once_fault(t: &Template, sim: Sim, targets: &[String], j: usize, k: Option<usize>, adopt: bool, prefix: Vec<usize>, kill: Option<usize>, db_fault: Option<(usize, usize)>) -> (Run, Vec<crate::exec::Point>) {
+    let out = exec::run_build(
+        ExecConfig {
+            model: Box::new(sim),
+            prefix,
+            explore_order: true,
+            db_fault,
+            max_waits: 300,
+            record_counts: false,
+            kill_after_waits: kill,
+        },
+        opts(t, targets, j, k, adopt),
+    );
+    let sim = take_sim(out.model);
+    (
+        Run {
+            result: out.result,
+            sim,
+            trace: out.trace,
+            thread_panics: out.thread_panics.len(),
+        },
+        out.points,
+    )
+}
+
+pub fn wanted_of(t: &Template, sim: &Sim, targets: &[String]) -> BTreeSet<usize> {
+    let p = sim.project();
+    let has_gen = p.producer(&t.manifest_name).is_some();
+    let tg: Vec<String> = targets.iter().map(|x| canon(x)).filter(|x| !(has_gen && *x == t.manifest_name)).collect();
+    p.wanted(&tg, if has_gen { Some(&t.manifest_name) } else { None })
+}
+
+/// Judges one finished invocation against the reference model.
+pub fn judge(t: &Template, before: &Sim, run: &Run, targets: &[String], expect_success: bool, adopt: bool) -> Findings {
+    let mut f = Findings::new();
+    let sim = &run.sim;
+    let p = sim.project();
+    match &run.result {
+        BuildResult::Panicked(pr) => {
+            f.push((pr.key.clone(), format!("n2 panicked: {} at {}", pr.message, pr.location)));
+            return f;
+        }
+        BuildResult::Stopped(w) => {
+            f.push((format!("stopped:{}", w), format!("the invocation could not continue: {}", w)));
+            return f;
+        }
+        _ => {}
+    }
+    if run.thread_panics > 0 {
+        f.push(("task-thread-panic".into(), "a task thread panicked".into()));
+    }
+    // C03: whatever ran was dirty according to the model at that moment.
+    for r in sim.ran.iter().skip(before.ran.len()) {
+        if r.step == usize::MAX {
+            f.push(("ran-unknown-command".into(), format!("command {:?} is not in the manifest", r.cmdline)));
+        } else if !r.model_dirty {
+            f.push((
+                "ran-although-up-to-date".into(),
+                format!("{} was run although nothing it depends on changed ({})", r.cmdline, r.model_reason),
+            ));
+        }
+    }
+    if adopt && sim.ran.len() > before.ran.len() {
+        f.push(("restat-ran-commands".into(), "commands were run in restat (adopt) mode".into()));
+    }
+    let wanted = wanted_of(t, sim, targets);
+    // Is a declared source missing somewhere in the wanted set?
+    let missing_source = wanted.iter().find_map(|&s| match sim.model.is_dirty(p, s) {
+        Dirty::MissingSource(n) => Some(n),
+        _ => None,
+    });
+    let unknown_target = targets.iter().any(|x| {
+        let c = canon(x);
+        p.producer(&c).is_none() && !p.sources().contains(&c) && c != t.manifest_name
+    });
+    // A scripted compile fails when a header it includes does not exist.
+    let compile_failed = sim.ran.iter().skip(before.ran.len()).any(|r| r.model_reason == "missing-include");
+    if !expect_success || compile_failed {
+        return f;
+    }
+    // n2's documented error: a remembered discovered dependency is a generated
+    // file to which the step has no ordering path (any more).
+    let no_path = wanted.iter().any(|&s| {
+        sim.model.discovered(p, s).iter().any(|d| match p.producer(d) {
+            Some(q) => !p.ord_pred(s).contains(&q),
+            None => false,
+        })
+    }) || wanted.iter().any(|&s| {
+        before.model.discovered(p, s).iter().any(|d| match p.producer(d) {
+            Some(q) => !p.ord_pred(s).contains(&q),
+            None => false,
+        })
+    });
+    if no_path {
+        if let BuildResult::Error(m) = &run.result {
+            if m.contains("used generated file") {
+                return f;
+            }
+        }
+    }
+    match (&run.result, &missing_source, unknown_target) {
+        (BuildResult::Error(m), _, true) if m.contains("unknown path requested") => return f,
+        (other, _, true) if !adopt => {
+            f.push(("unknown-target-accepted".into(), format!("a target of {:?} occurs nowhere in the manifest, result {:?}", targets, other)));
+            return f;
+        }
+        (BuildResult::Error(m), Some(n), _) if m.contains(&format!("input {} missing", n)) => return f,
+        (BuildResult::Error(m), Some(_), _) if m.contains("missing") => return f,
+        (other, Some(n), _) => {
+            f.push(("missing-source-not-reported".into(), format!("source {} is missing but the result is {:?}", n, other)));
+            return f;
+        }
+        (BuildResult::Success(_), None, _) => {}
+        (other, None, _) => {
+            f.push(("vanished-or-spurious-failure".into(), format!("no command fails and no source is missing, but the result is {:?}", other)));
+            return f;
+        }
+    }
+    if adopt {
+        return f;
+    }
+    // C02: everything wanted is up to date and carries clean-build content.
+    let clean = clean_tags(sim);
+    for &s in &wanted {
+        let stp = &p.steps[s];
+        if stp.phony {
+            continue;
+        }
+        let d = sim.model.is_dirty(p, s);
+        if d.is_dirty() {
+            f.push(("skipped-although-out-of-date".into(), format!("{} was not rebuilt although it is out of date: {:?}", stp.outs[0], d)));
+            continue;
+        }
+        for o in stp.all_outs() {
+            if *o == t.manifest_name {
+                continue;
+            }
+            match (sim.model.files.get(o), clean.get(o)) {
+                (Some(have), Some(want)) if have.tag != *want => f.push((
+                    "stale-output".into(),
+                    format!("{} has content {} but a clean build of the current sources gives {}", o, have.tag, want),
+                )),
+                (None, _) => f.push(("output-missing-after-success".into(), format!("{} does not exist after a successful build", o))),
+                _ => {}
+            }
+        }
+    }
+    f
+}
+
+pub struct Walk<'a> {
+    pub t: &'a Template,
+    pub prop: String,
+    pub job: String,
+    pub depth: usize,
+    pub max_edit_set: usize,
+    pub res: &'a mut ShardResult,
+    pub path: Vec<Value>,
+}
+
+impl<'a> Walk<'a> {
+    fn report(&mut self, findings: Findings, what: &str) {
+        const C03_KEYS: [&str; 3] = ["ran-although-up-to-date", "repeated-build-not-a-no-op", "restat-ran-commands"];
+        for (k, d) in findings {
+            // C02 and C03 share the walk; each reports its own clauses.
+            let is_c03 = C03_KEYS.contains(&k.as_str());
+            match self.prop.as_str() {
+                "C02" if is_c03 => continue,
+                "C03" if !is_c03 && !k.starts_with("panic") => continue,
+                _ => {}
+            }
+            let path = self.path.clone();
+            let job = self.job.clone();
+            let tn = self.t.name;
+            self.res.violation(
+                &k,
+                || format!("{} [{}]\nhistory: {}", d, what, serde_json::to_string(&path).unwrap_or_default()),
+                || json!({"job": job, "template": tn, "path": path}),
+            );
+        }
+    }
+
+    /// Runs one invocation from `node`; returns the successor node.
+    pub fn invoke(&mut self, node: &Node, inv: &Inv) -> Node {
+        exec::restore(&node.snap);
+        let t = self.t;
+        let before = node.sim.clone();
+        let mut next_sim;
+        let mut ok_build: Option<Vec<String>> = None;
+        match inv {
+            Inv::Build(tg) => {
+                let (run, _) = run_once(t, before.clone(), tg, 1, None, false, vec![], None);
+                self.count(&run);
+                let f = judge(t, &before, &run, tg, true, false);
+                self.report(f, "build");
+                if matches!(run.result, BuildResult::Success(_)) {
+                    ok_build = Some(tg.clone());
+                }
+                next_sim = run.sim;
+            }
+            Inv::BuildAllOrders => {
+                // Explore every order at -j2 from this state; continue from
+                // the default order.
+                let snap = node.snap.clone();
+                let mut stack: Vec<Vec<usize>> = vec![vec![]];
+                let mut first: Option<Run> = None;
+                let mut n = 0;
+                while let Some(prefix) = stack.pop() {
+                    exec::restore(&snap);
+                    let (run, points) = run_once(t, before.clone(), &[], 2, None, false, prefix.clone(), None);
+                    self.count(&run);
+                    n += 1;
+                    let f = judge(t, &before, &run, &[], true, false);
+                    self.report(f, &format!("build -j2 order {:?}", prefix));
+                    for i in prefix.len()..points.len() {
+                        for alt in 1..points[i].arity {
+                            let mut p: Vec<usize> = points[..i].iter().map(|x| x.chosen).collect();
+                            p.push(alt);
+                            stack.push(p);
+                        }
+                    }
+                    if first.is_none() {
+                        first = Some(run);
+                        // keep the tree of the default order
+                        let keep = exec::snapshot();
+                        let _ = keep;
+                    }
+                    if n > 200 {
+                        break;
+                    }
+                }
+                // Re-run the default order so that the tree on disk matches.
+                exec::restore(&snap);
+                let (run, _) = run_once(t, before.clone(), &[], 2, None, false, vec![], None);
+                if matches!(run.result, BuildResult::Success(_)) {
+                    ok_build = Some(vec![]);
+                }
+                next_sim = run.sim;
+            }
+            Inv::Fail(cmd, k) => {
+                let mut s = before.clone();
+                s.outcomes.insert(cmd.clone(), Outcome::Fail);
+                let (run, _) = run_once(t, s, &[], 1, *k, false, vec![], None);
+                self.count(&run);
+                let failed = run.sim.ran.iter().skip(before.ran.len()).any(|r| r.term != Term::Success);
+                // If the failing command was not needed the build is an
+                // ordinary successful one.
+                let f = judge(t, &before, &run, &[], !failed, false);
+                self.report(f, "build with failing command");
+                if failed && matches!(run.result, BuildResult::Success(_)) {
+                    self.report(vec![("success-despite-failure".into(), format!("{} failed but the build reported success", cmd))], "build with failing command");
+                }
+                next_sim = run.sim;
+                next_sim.outcomes.clear();
+            }
+            Inv::Kill(n, partial) => {
+                let (run, _) = run_once(t, before.clone(), &[], 2, None, false, vec![], Some(*n));
+                self.count(&run);
+                let f = judge(t, &before, &run, &[], false, false);
+                self.report(f, "killed build");
+                next_sim = run.sim;
+                if matches!(run.result, BuildResult::Crashed) && *partial {
+                    // Commands that were running leave fresh garbage.
+                    let mut running: Vec<String> = Vec::new();
+                    for ev in &run.trace {
+                        match ev {
+                            Event::Start { cmdline, .. } => running.push(cmdline.clone()),
+                            Event::Finished { build, .. } => {
+                                let c = run.trace.iter().find_map(|x| match x {
+                                    Event::Start { build: b, cmdline } if b == build => Some(cmdline.clone()),
+                                    _ => None,
+                                });
+                                if let Some(c) = c {
+                                    running.retain(|x| *x != c);
+                                }
+                            }
+                            _ => {}
+                        }
+                    }
+                    for c in running {
+                        if let Some(st) = next_sim.project().step_by_cmdline(&c) {
+                            let outs: Vec<String> = next_sim.project().steps[st].all_outs().cloned().collect();
+                            for o in outs {
+                                if o == t.manifest_name {
+                                    continue;
+                                }
+                                let tick = next_sim.model.tick();
+                                exec::write_file(&o, b"garbage", tick);
+                                next_sim.model.files.insert(o, FileInfo { mtime: tick, tag: 1 });
+                            }
+                        }
+                    }
+                }
+            }
+            Inv::Restat(tg) => {
+                let (run, _) = run_once(t, before.clone(), tg, 1, None, true, vec![], None);
+                self.count(&run);
+                let f = judge(t, &before, &run, tg, true, true);
+                self.report(f, "restat");
+                next_sim = run.sim;
+                if matches!(run.result, BuildResult::Success(_)) {
+                    // The model adopts every wanted step whose files all exist.
+                    let p = next_sim.project().clone();
+                    let wanted = wanted_of(t, &next_sim, tg);
+                    for s in p.topo(&wanted) {
+                        if next_sim.model.is_dirty(&p, s).is_dirty() {
+                            next_sim.model.adopt(&p, s);
+                        }
+                    }
+                    // Restat declares the present contents correct: from now on
+                    // they are what a clean build is compared with.
+                    let clean = clean_tags(&next_sim);
+                    for s in p.topo(&wanted) {
+                        for o in p.steps[s].all_outs() {
+                            if let (Some(info), Some(tag)) = (next_sim.model.files.get(o).copied(), clean.get(o)) {
+                                next_sim.model.files.insert(o.clone(), FileInfo { mtime: info.mtime, tag: *tag });
+                            }
+                        }
+                    }
+                    ok_build = Some(tg.clone());
+                }
+            }
+        }
+        // After a successful invocation an identical one does nothing (for
+        // restat: a following build runs only what the model still calls dirty).
+        if let Some(tg) = ok_build {
+            let is_restat = matches!(inv, Inv::Restat(_));
+            let (run2, _) = run_once(t, next_sim.clone(), &tg, 1, None, false, vec![], None);
+            self.count(&run2);
+            let ran2 = run2.sim.ran.len() - next_sim.ran.len();
+            let f = judge(t, &next_sim, &run2, &tg, true, false);
+            self.report(f, if is_restat { "build after restat" } else { "identical repeat" });
+            if !is_restat {
+                // When the model calls everything clean the repeat is a no-op.
+                let p = next_sim.project();
+                let all_clean = wanted_of(t, &next_sim, &tg).iter().all(|&s| !next_sim.model.is_dirty(p, s).is_dirty());
+                if all_clean && !matches!(run2.result, BuildResult::Success(0)) && matches!(run2.result, BuildResult::Success(_)) {
+                    self.report(
+                        vec![(
+                            "repeated-build-not-a-no-op".into(),
+                            format!("an identical invocation right after a successful one ran {} commands and returned {:?}", ran2, run2.result),
+                        )],
+                        "repeat",
+                    );
+                }
+            }
+            next_sim = run2.sim;
+        }
+        // Later rounds start from the manifest generation now on disk.
+        let last = next_sim.project().clone();
+        next_sim.projects = vec![last];
+        Node {
+            snap: exec::snapshot(),
+            sim: next_sim,
+            variant: node.variant,
+        }
+    }
+
+    fn count(&mut self, run: &Run) {
+        self.res.evaluations += 1;
+        self.res.transitions += 1;
+        let class = match &run.result {
+            BuildResult::Success(n) => format!("success-ran-{}", (*n).min(5)),
+            BuildResult::Failed => "failed".into(),
+            BuildResult::Error(m) => format!("error:{}", crate::eng_total::class_of(m)),
+            BuildResult::Crashed => "killed".into(),
+            BuildResult::Stopped(w) => format!("stopped:{}", w),
+            BuildResult::Panicked(p) => p.key.clone(),
+        };
+        self.res.outcome(&class);
+        if run.sim.projects.len() > 1 {
+            self.res.count("invocations_with_reload", 1);
+        }
+    }
+
+    pub fn walk(&mut self, node: &Node, round: usize, shard: Option<(u64, u64)>, marker: &crate::worker::Marker) {
+        if round == self.depth {
+            return;
+        }
+        self.res.states += 1;
+        self.res.max_depth = self.res.max_depth.max(round as u64 + 1);
+        let edits = edit_alphabet(self.t, node);
+        // edit sets: empty, singles, (pairs)
+        let mut sets: Vec<Vec<EditOp>> = vec![vec![]];
+        for e1 in &edits {
+            sets.push(vec![e1.clone()]);
+        }
+        if self.max_edit_set >= 2 && round == 0 {
+            for (i, e1) in edits.iter().enumerate() {
+                for e2 in edits.iter().skip(i + 1) {
+                    if compatible(e1, e2) {
+                        sets.push(vec![e1.clone(), e2.clone()]);
+                    }
+                }
+            }
+        }
+        let full = round + 1 == self.depth || self.depth <= 2;
+        let invs = inv_alphabet(self.t, round, full);
+        let mut child = 0u64;
+        for set in &sets {
+            for inv in &invs {
+                child += 1;
+                if let Some((s, n)) = shard {
+                    if child % n != s {
+                        continue;
+                    }
+                }
+                let mut n2 = node.clone();
+                exec::restore(&node.snap);
+                for op in set {
+                    apply_edit(self.t, &mut n2, op);
+                }
+                n2.snap = exec::snapshot();
+                self.path.push(json!({"edits": format!("{:?}", set), "inv": format!("{:?}", inv)}));
+                marker.set(child, format!("{} {}", self.t.name, serde_json::to_string(&self.path).unwrap_or_default()).as_bytes());
+                let before_v = self.res.violation_count;
+                let next = self.invoke(&n2, inv);
+                if self.res.violation_count == before_v {
+                    self.res.nontrivial += 1;
+                }
+                if self.res.evaluations % 5003 == 0 {
+                    let p = self.path.clone();
+                    let tn = self.t.name;
+                    self.res.sample(|| json!({"template": tn, "history": p}));
+                }
+                // Do not extend histories that already violated: one report
+                // per root cause is enough and later rounds would only echo it.
+                if self.res.violation_count == before_v {
+                    self.walk(&next, round + 1, None, marker);
+                }
+                self.path.pop();
+            }
+        }
+    }
+}
+
+fn compatible(a: &EditOp, b: &EditOp) -> bool {
+    // Two manifest replacements or two report settings of one step do not
+    // commute; everything else touches different files.
+    match (a, b) {
+        (EditOp::Variant(_), EditOp::Variant(_)) => false,
+        (EditOp::GenVariant(_), EditOp::GenVariant(_)) => false,
+        (EditOp::Reports(x, _), EditOp::Reports(y, _)) => x != y,
+        (EditOp::RemoveOut(x), EditOp::TouchOut(y)) | (EditOp::TouchOut(x), EditOp::RemoveOut(y)) => x != y,
+        (EditOp::Touch(x), EditOp::RemoveHeader(y)) | (EditOp::RemoveHeader(x), EditOp::Touch(y)) => x != y,
+        _ => true,
+    }
+}
+
+pub fn run(ctx: &mut Ctx) -> ShardResult {
+    let mut res = ShardResult::default();
+    exec::install_hooks();
+    let job = ctx.job.clone();
+    let parts: Vec<&str> = job.split(':').collect();
+    let tname = parts[1];
+    let depth: usize = parts[2].parse().expect("depth");
+    let all = templates();
+    let t = all.iter().find(|t| t.name == tname).expect("template");
+    let mut w = Walk {
+        t,
+        prop: ctx.prop.clone(),
+        job: job.clone(),
+        depth,
+        max_edit_set: if ctx.tier == Tier::Thorough { 2 } else { 1 },
+        res: &mut res,
+        path: Vec::new(),
+    };
+    let root = initial(t);
+    if let Some(case) = ctx.replay.clone() {
+        // Replay: follow the recorded path by matching the printed edits/inv.
+        let mut node = root;
+        let path = case["path"].as_array().cloned().unwrap_or_default();
+        for (round, stepv) in path.iter().enumerate() {
+            let edits = edit_alphabet(t, &node);
+            let mut sets: Vec<Vec<EditOp>> = vec![vec![]];
+            for e1 in &edits {
+                sets.push(vec![e1.clone()]);
+            }
+            for (i, e1) in edits.iter().enumerate() {
+                for e2 in edits.iter().skip(i + 1) {
+                    sets.push(vec![e1.clone(), e2.clone()]);
+                }
+            }
+            let want_e = stepv["edits"].as_str().unwrap_or("");
+            let want_i = stepv["inv"].as_str().unwrap_or("");
+            let set = sets.into_iter().find(|s| format!("{:?}", s) == want_e).expect("edit set of the recorded path");
+            let mut invs = inv_alphabet(t, round, true);
+            invs.extend(inv_alphabet(t, round, false));
+            invs.push(Inv::BuildAllOrders);
+            let inv = invs.into_iter().find(|i| format!("{:?}", i) == want_i).expect("invocation of the recorded path");
+            let mut n2 = node.clone();
+            exec::restore(&node.snap);
+            for op in &set {
+                apply_edit(t, &mut n2, op);
+            }
+            n2.snap = exec::snapshot();
+            w.path.push(stepv.clone());
+            node = w.invoke(&n2, &inv);
+        }
+        return res;
+    }
+    w.walk(&root, 0, Some((ctx.shard, ctx.nshards)), &ctx.marker);
+    res
+}
+
+pub fn case_from_marker(job: &str, bytes: &[u8]) -> Value {
+    let text = String::from_utf8_lossy(bytes).to_string();
+    let (tn, path) = text.split_once(' ').unwrap_or((&text, "[]"));
+    json!({"job": job, "template": tn, "path": serde_json::from_str::<Value>(path).unwrap_or(json!([]))})
 }
